@@ -454,7 +454,7 @@ public:
        << ",\"endline\":" << lineOf(FD->getEndLoc())
        << ",\"static\":" << (FD->getStorageClass() == SC_Static ? "true" : "false")
        << ",\"inline\":" << (FD->isInlineSpecified() ? "true" : "false")
-       << ",\"ret\":" << jstr(tyStr(FD->getReturnType()));
+       << ",\"ret\":" << jstr(tyStr(FD->getReturnType())) << ",\"cret\":" << jstr(ctyStr(FD->getReturnType()));
     os << ",\"attrs\":[";
     bool fa = true;
     for (const Attr *A : FD->attrs()) {
